@@ -156,10 +156,11 @@ func (h *Handler) Handle(down *layer4.Connection, _ layer4.Handler) error {
 
 	var upConns []net.Conn
 	var proxyErr error
+	var upstream *Upstream
 
 	for {
 		// choose an available upstream
-		upstream := h.LoadBalancing.SelectionPolicy.Select(h.Upstreams, down)
+		upstream = h.LoadBalancing.SelectionPolicy.Select(h.Upstreams, down)
 		if upstream == nil {
 			if proxyErr == nil {
 				proxyErr = fmt.Errorf("no upstreams available")
@@ -182,6 +183,17 @@ func (h *Handler) Handle(down *layer4.Connection, _ layer4.Handler) error {
 
 		break
 	}
+
+	// count the connection on every peer of the upstream for as long as it is proxied,
+	// so that max_connections, unhealthy_connection_count and least_conn have something to go by
+	for _, p := range upstream.peers {
+		_ = p.countConn(1)
+	}
+	defer func() {
+		for _, p := range upstream.peers {
+			_ = p.countConn(-1)
+		}
+	}()
 
 	// make sure upstream connections all get closed
 	defer func() {
